@@ -209,18 +209,20 @@ Example C03_hypotheses_satisfiable :
   (sumT Qops (basis_function Qops 3 U 4 (3#10)) == 1)%Q.
 Proof. cbv zeta. repeat split; try (vm_compute; congruence); try (cbn; lia). Qed.
 
-
 (* ====================== TRANSLATOR TIE (Proofs/GenTie*.v) ======================
-   coq/Gen/*.v is the Gallina rendering of the Python source produced by harness/pytrans.py; every run of ./check regenerates it from
-   /repo and compares it function by function with the committed text (evidence: translator_tie).  The theorems below say that the
-   hand-written model (the subject of the theorems above) computes, for ALL inputs satisfying the stated well-formedness, exactly what
-   the translated source computes. *)
-From Coq Require Import ZArith.
-From NV Require Import Gen.Prelude Gen.Linalg Gen.Knotvector Gen.Helpers Proofs.GenTieLib Proofs.GenTieKnots Proofs.GenTieSpan Proofs.GenTieBasis Proofs.GenTieBasisOne.
-
-
-
+   coq/Gen/*.v is the Gallina rendering of the Python source produced by harness/pytrans.py; every run of ./check regenerates it
+   from /repo and compares it function by function with the committed text (evidence: translator_tie).  The theorems below say
+   that the hand-written model (the subject of the theorems above) computes, for ALL inputs satisfying the stated
+   well-formedness, exactly what the translated source computes.  This block stays LAST in the file: its imports shadow
+   model names. *)
+From Coq Require Import List QArith Reals Qreals Lia Lra Arith Bool ZArith.
+From NV Require Import Scalar.Ops Model.Common Model.Basis Model.Knots Model.KnotIns Model.KnotRem Model.LinAlg Model.Degree
+  Gen.Prelude Gen.LinalgInternal Gen.Linalg Gen.Knotvector Gen.Helpers
+  Proofs.GenTieSums Proofs.GenTieLinAlg Proofs.GenTieSubst Proofs.GenTieLU Proofs.GenTieLUSolve Proofs.GenTieKnotRem Proofs.GenTieDegree
+  Proofs.GenTieLib Proofs.GenTieKnots Proofs.GenTieSpan Proofs.GenTieBasis Proofs.GenTieBasisOne
+  Proofs.GenTieDersOne Proofs.GenTieDersLib Proofs.GenTieDers Proofs.GenTieKnotIns.
 Local Open Scope nat_scope.
+
 
 (* [G] helpers.find_span_linear; wf: the loop reads knot_vector[degree+1 .. num_ctrlpts-1] *)
 Theorem C03_gen_find_span_linear_R : forall (p : nat) (U : list R) (n : nat) (u : R),
@@ -352,6 +354,31 @@ Theorem C03_gen_check_Q : forall (p : nat) (U : list Q) (n : nat),
 Proof. exact check_tie_Q. Qed.
 Print Assumptions C03_gen_check_Q.
 
+(* [G] helpers.basis_function_ders (A2.3); wf as for basis_function plus order <= degree.  The Python code reuses one
+   array `a` for all function indices, the model uses a fresh one: the proof shows stale entries are never read *)
+Theorem C03_gen_basis_function_ders_R : forall (p : nat) (U : list R) (sp : nat) (u : R) (order : nat),
+  p <= sp + 1 -> sp + p < length U -> order <= p ->
+  Helpers.basis_function_ders Rops (Z.of_nat p) U (Z.of_nat sp) u (Z.of_nat order) = GOk (Basis.basis_function_ders Rops p U sp u order).
+Proof. exact basis_function_ders_tie_R. Qed.
+Print Assumptions C03_gen_basis_function_ders_R.
+Theorem C03_gen_basis_function_ders_Q : forall (p : nat) (U : list Q) (sp : nat) (u : Q) (order : nat),
+  p <= sp + 1 -> sp + p < length U -> order <= p ->
+  Helpers.basis_function_ders Qops (Z.of_nat p) U (Z.of_nat sp) u (Z.of_nat order) = GOk (Basis.basis_function_ders Qops p U sp u order).
+Proof. exact basis_function_ders_tie_Q. Qed.
+Print Assumptions C03_gen_basis_function_ders_Q.
+
+(* [G] helpers.basis_function_ders_one (A2.5); wf: span + degree + 1 < len, order <= degree *)
+Theorem C03_gen_basis_function_ders_one_R : forall (p : nat) (U : list R) (sp : nat) (u : R) (order : nat),
+  sp + p + 1 < length U -> order <= p ->
+  Helpers.basis_function_ders_one Rops (Z.of_nat p) U (Z.of_nat sp) u (Z.of_nat order) = GOk (Basis.basis_function_ders_one Rops p U sp u order).
+Proof. exact basis_function_ders_one_tie_R. Qed.
+Print Assumptions C03_gen_basis_function_ders_one_R.
+Theorem C03_gen_basis_function_ders_one_Q : forall (p : nat) (U : list Q) (sp : nat) (u : Q) (order : nat),
+  sp + p + 1 < length U -> order <= p ->
+  Helpers.basis_function_ders_one Qops (Z.of_nat p) U (Z.of_nat sp) u (Z.of_nat order) = GOk (Basis.basis_function_ders_one Qops p U sp u order).
+Proof. exact basis_function_ders_one_tie_Q. Qed.
+Print Assumptions C03_gen_basis_function_ders_one_Q.
+
 (* non-vacuity: hypotheses satisfiable and both sides evaluated on degree 3 with a repeated interior knot *)
 Example C03_gen_nonvacuous :
   let U := [0; 0; 0; 0; 1#4; 1#2; 1#2; 3#4; 1; 1; 1; 1]%Q in
@@ -362,3 +389,4 @@ Example C03_gen_nonvacuous :
   /\ Helpers.find_span_linear Qops 3 U 8 (1#2)%Q = GOk 6%Z
   /\ Helpers.find_multiplicity Qops (1#2)%Q U (Helpers.find_multiplicity__default_tol Qops) = GOk 2%Z.
 Proof. cbv zeta. repeat split; try (vm_compute; reflexivity); simpl; lia. Qed.
+
